@@ -73,6 +73,9 @@ func (m *module) cfgBasic(f *Func) {
 				} else if t.Op != opBranchConditional && t.Op != opSwitch {
 					m.fail("C3", "%s in block %%%d is followed by %s, must be OpBranchConditional or OpSwitch", in, b.Label, t.name())
 				}
+				if sc, _ := in.opLit(1); sc > 3 || sc == 3 {
+					m.fail("C3", "%s: selection control 0x%x has unknown bits or both Flatten and DontFlatten", in, sc)
+				}
 				m.fire("C9")
 				if m.labelIn(f, in.opID(0)) == nil && m.defs[in.opID(0)] != nil {
 					m.fail("C9", "%s: merge block %%%d is not a label of function %%%d", in, in.opID(0), f.Inst.Result)
@@ -83,6 +86,21 @@ func (m *module) cfgBasic(f *Func) {
 					m.fail("C4", "%s in block %%%d is not the second-to-last instruction of its block", in, b.Label)
 				} else if t.Op != opBranch && t.Op != opBranchConditional {
 					m.fail("C4", "%s in block %%%d is followed by %s, must be OpBranch or OpBranchConditional", in, b.Label, t.name())
+				}
+				if lc, ok := in.opLit(2); ok {
+					// every loop-control bit from DependencyLength (0x8) to PartialCount (0x100) carries one literal
+					want := 0
+					for bit := uint32(0x8); bit <= 0x100; bit <<= 1 {
+						if lc&bit != 0 {
+							want++
+						}
+					}
+					if got := len(in.Ops) - 3; lc&^0x1ff == 0 && got != want {
+						m.fail("C4", "%s: loop control 0x%x needs %d literal operand(s), got %d", in, lc, want, got)
+					}
+					if lc&0x3 == 0x3 {
+						m.fail("C4", "%s: loop control has both Unroll and DontUnroll", in)
+					}
 				}
 				for k := 0; k < 2; k++ {
 					m.fire("C9")
